@@ -95,3 +95,9 @@ Theorem rewrite_always_refuted :
   exists cur d, vfile d = Some cur /\ dfiles d <> [] /\
     dfiles (startup cur SDone (startup_rewrite_always cur SAfterTruncate d)) = [].
 Proof. exact rewrite_always_refuted_lemma. Qed.
+
+(* source-derived structural fact (driver.rs build_node, regenerated every run): the encryption seed is the
+   first 16 bytes of the serialised peer id and is assigned nowhere else -- a function of the identity only.
+   The crash model re-opens the store under the same environment E (same cipher key) on that ground. *)
+Theorem store_seed_is_function_of_identity : Consts.rs_seed_from_identity = true.
+Proof. exact seed_is_function_of_identity. Qed.
